@@ -307,6 +307,62 @@ def run(db: DB, rep: Report) -> None:
                   "index variable is renamed to its partition level, the others keep a name no loop binds)" %
                   (f.short, norm(lost[0][0])[:70] if lost else "", norm(lost[0][1].iter)[:40] if lost else ""))
 
+    # ---- N12: extents named in a shape= argument are extents the user supplies ----------
+    rep.rule("N12", "a shape= argument names the root of a rank only if the rank does not stem from a "
+             "flattening (else the product of its constituents' extents)", 2)
+    n_n12 = 0
+    for f in db.all_functions(["teaal.trans."]):
+        sinks = []
+        for n in walk_no_nested(f.node):
+            if isinstance(n, ast.Call) and isinstance(n.func, ast.Attribute) and n.func.attr == "build_shape" \
+                    and n.args:
+                sinks.append((n, n.args[0]))
+            if isinstance(n, ast.Call) and norm(n.func) == "AParam" and len(n.args) == 2 and \
+                    isinstance(n.args[0], ast.Constant) and n.args[0].value == "shape":
+                v = n.args[1]
+                if isinstance(v, ast.Call) and norm(v.func) == "EList" and v.args:
+                    v = v.args[0]
+                sinks.append((n, v))
+        if f.short == "TransUtils.build_shape":
+            continue        # the helper itself: its callers are the sinks
+        for site, lst in sinks:
+            # the elements of the list: list display / comprehension, or appends to a local list
+            elems: List[Tuple[ast.AST, ast.AST]] = []        # (where it is added, element expression)
+            if isinstance(lst, ast.Name):
+                for st, v in paths.defs_of(f.node, lst.id):
+                    if isinstance(st, ast.Call) and v is not None:            # lst.append(v)
+                        elems.append((st, v))
+                    elif isinstance(v, (ast.List, ast.Tuple)):
+                        elems.extend((st, e) for e in v.elts)
+                    elif isinstance(v, ast.ListComp):
+                        elems.append((st, v.elt))
+                    elif v is not None:
+                        elems.append((st, v))
+            elif isinstance(lst, (ast.List, ast.Tuple)):
+                elems = [(site, e) for e in lst.elts]
+            elif isinstance(lst, ast.ListComp):
+                elems = [(site, lst.elt)]
+            for at, e in elems:
+                # does a rank's root name reach this element?
+                txt = paths.flow_text(e, at, f.node) if hasattr(at, "parent") else norm(e)
+                nms, exprs = paths.backward_slice(f.node, sorted(paths.load_names(e)), with_control=False)
+                calls = paths.called_names([e] + exprs)
+                if "get_root_name" not in calls:
+                    continue
+                n_n12 += 1
+                excluded = any(".is_flattened(" in paths.inlined_text(a, f.node) and not p_
+                               for t, pol in paths.guards(at, stop=f.node) for a, p_ in paths.conjuncts(t, pol))
+                from_unpack = "unpack" in calls
+                rep.check("N12", excluded or from_unpack, db.loc(at), f.short, "shape-extent:" + norm(e)[:40],
+                          "extent %s: %s" % (norm(e)[:40], "flattened ranks excluded" if excluded else
+                                             "built from the constituents (unpack)"),
+                          "%s puts the root name of a rank (%s) into a shape= argument without having excluded "
+                          "ranks that stem from a flattening: for those the root is the concatenated name "
+                          "(MK), which no statement binds and the specification does not define - the emitted "
+                          "program is not closed" % (f.short, norm(e)[:50]))
+    if n_n12 < 2:
+        raise AnalysisError("fewer than 2 shape= extents derived from get_root_name found (%d)" % n_n12)
+
     # ---- N3 --------------------------------------------------------------------
     rep.rule("N3", "receiver temporary is named before the next temporary is allocated", 4)
     for f in db.all_functions(["teaal.trans."]):
@@ -441,6 +497,9 @@ def mutants(db: DB):
         M("clone starts from current ranks", col,
           "                final_tensor = Tensor(\n                    output.root_name(), output.get_init_ranks())",
           "                final_tensor = Tensor(\n                    output.root_name(), output.get_ranks())", "N5"),
+        M("revert F11 fix (shape names the concatenated rank)", "teaal/trans/header.py",
+          "            args.append(TransUtils.build_shape(shape))", "            args.append(TransUtils.build_shape(unpart_ranks))",
+          "N12"),
         M("bottom-rank renames do not accumulate", eq,
           "            for symbol in sexpr.atoms(Symbol):\n                new_rank = partitioning.partition_rank((str(symbol).upper(),))\n                if new_rank:\n                    sexpr = sexpr.subs(symbol, str(symbol) + \"0\")",
           "            full_expr = sexpr\n            for symbol in full_expr.atoms(Symbol):\n                new_rank = partitioning.partition_rank((str(symbol).upper(),))\n                if new_rank:\n                    sexpr = full_expr.subs(symbol, str(symbol) + \"0\")",
